@@ -281,6 +281,18 @@ static void history(vt::Rng& r, int nops) {
         bool inside = r.chance(70) && W && H;
         long x0 = inside ? (long)r.below(W) : (long)r.range(-4, W + 3), y0 = inside ? (long)r.below(H) : (long)r.range(-4, H + 3);
         long x1 = inside ? (long)r.below(W) : (long)r.range(-4, W + 3), y1 = inside ? (long)r.below(H) : (long)r.range(-4, H + 3);
+        if (r.chance(15) && W && H) {
+          // from inside the canvas towards an end point 2^24 .. 2^26 pixels away whose coordinates are NOT exactly
+          // representable in single precision (odd numbers above 2^24): the visible part must still hug the ideal segment
+          x0 = (long)r.below(W), y0 = (long)r.below(H);
+          static const long FAR[][2] = {{33554433, 16777216}, {33554435, 16777219}, {50331649, 16777217}, {16777217, 33554433},
+              {67108863, 22369621}, {16777219, 16777217}, {33554431, 11184811}};
+          const long* f = FAR[r.below(7)];
+          x1 = x0 + (r.chance(50) ? f[0] : -f[0]);
+          y1 = y0 + (r.chance(50) ? f[1] : -f[1]);
+          if (r.chance(30)) swap(x1, y1), x1 += x0 - y0, y1 += y0 - x0;
+          inside = false;
+        }
         c[0] = 200;
         string out = guarded([&] {
           if (g_packed) dst.draw_line(x0, y0, x1, y1, PK(c));
